@@ -21,6 +21,24 @@ pub fn create_post_work() -> Box<BeWork> {
     Box::new(PostWork {})
 }
 
+/// The longest glyph name a version 2 post table can hold: names are Pascal
+/// strings, whose length is a single byte.
+const MAX_GLYPH_NAME_LEN: usize = u8::MAX as usize;
+
+/// A longer name cannot be written; left alone, its length byte would wrap and
+/// every following name in the table would be misread.
+fn check_name_lengths<'a>(mut names: impl Iterator<Item = &'a str>) -> Result<(), Error> {
+    match names.find(|name| name.len() > MAX_GLYPH_NAME_LEN) {
+        Some(name) => Err(Error::OutOfBounds {
+            what: format!(
+                "length in bytes of glyph name '{name}' (post table limit is {MAX_GLYPH_NAME_LEN})"
+            ),
+            value: name.len().to_string(),
+        }),
+        None => Ok(()),
+    }
+}
+
 impl Work<Context, AnyWorkId, Error> for PostWork {
     fn id(&self) -> AnyWorkId {
         WorkId::Post.into()
@@ -75,9 +93,11 @@ impl Work<Context, AnyWorkId, Error> for PostWork {
                 })
                 .collect();
 
+            check_name_lengths(final_glyph_names.iter().map(|g| g.as_str()))?;
             Post::new_v2(final_glyph_names.iter().map(|g| g.as_str()))
         } else {
             // use the original glyph names as-is
+            check_name_lengths(glyph_order.names().map(|g| g.as_str()))?;
             Post::new_v2(glyph_order.names().map(|g| g.as_str()))
         };
 
@@ -87,5 +107,22 @@ impl Work<Context, AnyWorkId, Error> for PostWork {
         post.underline_thickness = FWord::new(metrics.underline_thickness.ot_round());
         context.post.set(post);
         Ok(())
+    }
+}
+
+#[cfg(test)]
+mod tests {
+    use super::*;
+
+    #[test]
+    fn glyph_name_that_does_not_fit_a_pascal_string_is_an_error() {
+        let fits = "x".repeat(255);
+        let too_long = "x".repeat(256);
+        assert!(check_name_lengths([".notdef", fits.as_str()].into_iter()).is_ok());
+        let err = check_name_lengths([".notdef", too_long.as_str(), "a"].into_iter()).unwrap_err();
+        assert!(
+            matches!(&err, Error::OutOfBounds { value, .. } if value == "256"),
+            "{err}"
+        );
     }
 }
